@@ -61,8 +61,15 @@ class Case(object):
         return r
 
     def heavy_retained(self):
-        si = molfacts.spec_inputs(self.facts, self.o)
-        return [] if si is None else si[0]
+        """Indices of the atoms the fingerprinter must retain (independent of the bond table)."""
+        heavy = [a for a in self.facts['atoms'] if a['num'] > 1]
+        if self.o['exfloat'] and len(heavy) > 1:
+            heavy = [a for a in heavy if a['deg'] > 0]
+        return [a['idx'] for a in heavy]
+
+    def has_offtable_bond(self):
+        ret = set(self.heavy_retained())
+        return any(t == 'BtOther' and a in ret and b in ret for a, b, t in self.facts['bonds'])
 
     def expr(self):
         ol, ml = molfacts.opts_lit(self.o), molfacts.mol_lit(self.facts)
@@ -76,8 +83,10 @@ class Case(object):
 
     def payload(self):
         from rdkit import Chem
+        conf = self.mol.GetConformer(self.cid)
         d = {'name': self.name, 'conf': self.cid, 'opts': opts_json(self.o), 'bits': self.bits, 'counts': self.counts,
-             'molblock': Chem.MolToMolBlock(self.mol, confId=self.cid)}
+             'molblock': Chem.MolToMolBlock(self.mol, confId=self.cid),
+             'exact_coords_hex': [[float(c).hex() for c in conf.GetAtomPosition(i)] for i in range(self.mol.GetNumAtoms())]}
         if self.err is not None:
             d['impl'] = 'raises %s (%s)' % (self.err, self.exc)
         else:
@@ -211,6 +220,29 @@ def transformed(mol, cid, M, t):
     return m
 
 
+def base_run(ctx, name, mol, cid, o):
+    """Implementation run for the metamorphic searches.  An exception is a failure unless the input is one the property
+    excludes (no heavy atom retained) or the listed bond-table finding; skipped inputs are counted in the evidence."""
+    try:
+        return molfacts.impl_run(mol, cid, o)
+    except Exception as e:  # noqa
+        facts = molfacts.mol_facts(mol, cid)
+        heavy = [a for a in facts['atoms'] if a['num'] > 1]
+        if o['exfloat'] and len(heavy) > 1:
+            heavy = [a for a in heavy if a['deg'] > 0]
+        ret = set(a['idx'] for a in heavy)
+        offtable = any(t == 'BtOther' and a in ret and b in ret for a, b, t in facts['bonds'])
+        st = ctx.coverage.setdefault('input_distribution', {}).setdefault('search_inputs_skipped', {})
+        if not heavy:
+            st['no_heavy_atom_retained'] = st.get('no_heavy_atom_retained', 0) + 1
+        elif offtable and isinstance(e, KeyError):
+            st['bond_type_outside_table'] = st.get('bond_type_outside_table', 0) + 1
+        else:
+            ctx.fail('fingerprinting raised %s: %s on %s' % (type(e).__name__, str(e)[:100], name),
+                     {'name': name, 'conf': cid, 'opts': opts_json(o)}, finding_key=None)
+        return None
+
+
 def is_unstable(mol, cid, o):
     try:
         molfacts.run_spec(molfacts.mol_facts(mol, cid), o)
@@ -232,6 +264,11 @@ def replay_case(ctx, path):
         print('(this replay file carries no single model input; the recorded observation is shown above)')
         return 0
     m = Chem.MolFromMolBlock(c['molblock'], removeHs=False)
+    if 'exact_coords_hex' in c:           # the mol block keeps 4 decimals only: restore the exact doubles
+        from rdkit.Geometry import Point3D
+        conf = m.GetConformer()
+        for i, xyz in enumerate(c['exact_coords_hex']):
+            conf.SetAtomPosition(i, Point3D(*[float.fromhex(v) for v in xyz]))
     o = c['opts']
     case = Case(c.get('name', 'replay'), m, 0, o, bits=c.get('bits', 2 ** 32), counts=c.get('counts', False))
     for q in c.get('queries', []):
